@@ -748,6 +748,26 @@ def d41():
     return with_tree(run)
 
 
+def d42():
+    """a gophermap line whose selector starts with URL: but is not a URL (`URL:notes`) is looked up as <root> + `URL:notes`, joined as text:
+    that is a neighbour of the root (`/srv/gopherURL:notes`), and what exists there shows in the menu (Gopher+ size, date, abstract)"""
+    def run(d):
+        root = os.path.join(d, "gopher")
+        os.mkdir(root)
+        os.mkdir(os.path.join(root, "m"))
+        open(os.path.join(root, "m", "gophermap"), "w").write("0Notes\tURL:notes\n")
+        cfg = make_config(root=root, conf="conf/pygopherd.conf")
+        cfg.set("handlers.dir.DirHandler", "cachetime", "0")
+        before, _, _ = request(b"/m\t$\r\n", cfg)
+        outside = root + "URL:notes"
+        open(outside, "w").write("x" * 4321)
+        open(outside + ".abstract", "w").write("SECRET-ABSTRACT")
+        after, _, _ = request(b"/m\t$\r\n", cfg)
+        return before != after, f"menu changes with a file outside the root: abstract shown={b'SECRET-ABSTRACT' in after}, size shown={b'4321' in after or b'4k' in after}"
+
+    return with_tree(run)
+
+
 ALL = {k: v for k, v in list(globals().items()) if k.startswith("d") and k[1:2].isdigit() and callable(v)}
 ALL.pop("d8", None)
 
